@@ -4,15 +4,67 @@ import json, subprocess
 props = [json.loads(l)['id'] for l in open('/verif/properties.jsonl')]
 TB = ("trusted: govc's SSA->SMT semantics (DESIGN.md 2.3, 8), go/ssa+go/types, the SMT solvers, Go memory safety without unsafe, "
       "computed write sets, assumed library models and spec axioms listed in the evidence; int arithmetic mathematical; termination not proved")
+L = "  What composes these per-function facts into the whole-program reading of the property is a paper lemma of DESIGN.md section 5, not machine-checked."
 claimed = {
- 'C12': dict(text="Unbounded deductive proof, for every program text and byte offset, that Lexer.GetLineAndCol returns exactly line N of the text, its 1-based number and the byte column of the offset (loop invariants + postconditions over the real code, discharged by z3/cvc5).",
-             note=TB + "; only the position->(line,col,text) computation and the error constructors are under contract: which token an error is attached to ('inside the offending construct') is not decided (DESIGN.md 7).",
+ 'C01': dict(text="Unbounded deductive proof over the real code of lexer, parser, evaluator, value model and native methods (about 100 functions under contract): (a) safety -- no nil dereference, index/slice out of range, failed type assertion, integer division by zero, write to a nil map, nor any reachable explicit panic; (b) error funnel -- lexer/parser return only syntax errors, the evaluator only runtime errors or control-flow sentinels, EvalProgram only syntax/runtime/JSON errors; next and exit are proved consumed by the drivers (also when raised inside a rule pattern or a root selector). Type invariants (well-formed values, tokens, AST nodes, frames) are assumed on load and proved at every store.",
+             note=TB + "; break/continue/return escaping a rule body is excluded by the parser's static scoping facts (proved: flags restored, break needs loop context, return needs function context) composed by lemma L1, not by a machine-checked whole-AST invariant; Go stack exhaustion by deep recursion and out-of-memory are outside the logic; cli.Run/printError and GetRootJson are not under contract; wf(Value) of a zero Cell handed to copyValue is the documented gap of DESIGN.md 4/C01." + L,
+             design="4 C01"),
+ 'C02': dict(text="Unbounded deductive proof of the scheduling steps on the real drivers: readRules partitions the rules by kind (each list holds only rules of its kind); evalRules runs a rule's body iff its pattern is absent or was just evaluated truthy, stops the list on next (also from a pattern) and never returns next; evalPatternRules binds $ to element i and $index to i for each element of an array root (in slice order) and to the root itself otherwise; EvalProgram gives every BEGIN/END rule a fresh null $, runs the pattern rules on the selected root cell, consumes next/exit at every level.",
+             note=TB + "; order preservation inside each rule list and the nesting files -> values -> selectors -> BEGINFILE/pattern/ENDFILE are read off the loop structure (range loops in source order), not stated as a trace postcondition; $file binding is not under contract." + L,
+             design="4 C02"),
+ 'C03': dict(text="Proof, relative to an assumed contract of encoding/json.Decoder, of jqawk's own decode loop: a file is abandoned only when Decode returned io.EOF (asserted before the next file is opened and at the entry of the END rules), rules run only after a successful Decode, and a JSON error is returned only for a Decode error other than io.EOF.",
+             note=TB + "; incremental consumption, independence from read chunking and the behaviour at each truncation point are properties of encoding/json and the reader and are NOT decided (DESIGN.md 7); the decoder is an unconstrained external here (any error sequence).",
+             design="4 C03"),
+ 'C04': dict(text="Unbounded deductive proof of the local structure preservation of the JSON conversions on the real code: NewValue maps each decoded Go kind to the value of that kind with the same payload/length; toGoValueInterval maps each value kind back (arrays to a NON-NIL list of the same length, objects to a fresh map, null/unset to nil), rejects functions/regexes, rejects a container that recurs on the ancestor path (and only consults the extended path for children), and propagates every error.",
+             note=TB + "; element-wise correspondence for []any/object members and the document-level round trip need structural induction (lemma L4) and encoding/json's Marshal/Unmarshal round trip (assumed); termination on cyclic values is lemma L5." + L,
+             design="4 C04"),
+ 'C05': dict(text="Unbounded deductive proof that the coercions (number, string form, truthiness), Compare, ! + - ++ --, and every binary operator of evalBinaryExpr compute exactly the tables of DESIGN.md section 3 for every operand kind and every double: concatenation vs addition, - * /, % on truncated operands, divide/modulo error iff the (truncated) divisor is zero, comparison rows incl. unset and null ordering and container errors, short-circuit && || (right operand evaluated iff needed), is, ~ / !~ incl. invalid-pattern errors.",
+             note=TB + "; float64 operations are uninterpreted with IEEE facts first and SMT FloatingPoint when needed; strconv.ParseFloat/FormatFloat and regexp are assumed library contracts; operand values are the cells returned by the operand evaluations, read in the final state.",
+             design="4 C05, 3"),
+ 'C06': dict(text="Unbounded deductive proof of the three facts from which precedence-climbing yields the fully parenthesised grouping: (I1) NewParser's rule table equals the documented ladder (precedence and prefix/infix parselet for each of the 36 tokens, nothing else); (I2) expressionWithPrec returns only when the operator under the cursor binds looser than the requested level; (I3) binary parses its right operand one level tighter (same level for the right-associative compound assignments), assign at assignment level, unary at unary level, and the nodes built have the documented shape.",
+             note=TB + "; that I1-I3 imply the grouping for every expression is lemma L6 (standard precedence-climbing argument), not machine-checked." + L,
+             design="4 C06"),
+ 'C07': dict(text="Unbounded deductive proof of the per-construct protocol of evalStatement on the real code: an if branch / while body / for body runs only directly after its own condition evaluated truthy (else-branch: falsy), the loop continues and the for post-expression runs only after a completed or continued iteration, errors of every clause are returned, and the parser restores the loop/function context after every construct and accepts break/continue only in loop context, return only in function context.",
+             note=TB + "; for-in element/index binding and 'exactly once in order' are read off the range loops; equivalence with a reference semantics for arbitrary nesting is lemma L7." + L,
+             design="4 C07"),
+ 'C08': dict(text="Unbounded deductive proof of the frame-stack discipline: every evaluation function returns with exactly the frame stack it was called with, on every path (success, sentinel, fault); pushFrame/popFrame contracts; callFunction binds every parameter in a fresh cell of a fresh frame, runs the body there, yields the returned value / null exactly as the body ended; arguments are evaluated into fresh copies.",
+             note=TB + "; the precise lookup order of getVariable along the frame chain is not under contract." + L,
+             design="4 C08"),
+ 'C09': dict(text="Unbounded deductive proof of the member store/read contracts: SetMember changes exactly the addressed location (negative indices, padding with pairwise distinct fresh nulls, old cells kept, 1Mi fill limit, object key set grows by exactly the key) and nothing else (frame); GetMember modifies nothing at all (reads never change the document) and returns the live cell / a detached null; copyValue writes only the target cell; compound assignment desugars to the same target node twice.",
+             note=TB + "; aliasing of array values through copied slice headers (DESIGN.md section 6, D7b) is outside these contracts." + L,
+             design="4 C09"),
+ 'C11': dict(text="Unbounded deductive proof with a ghost fault latch: every fault creation sets the latch, every evaluator function and helper requires it clear and ensures it is set exactly when a fault is returned, and every output primitive requires it clear -- so an error dropped in any syntactic position, or output after a fault, fails an obligation. Syntax part: Parse produces no output and EvalProgram returns its error before any evaluation; static rejections (break/continue/return context, assignment targets) are postconditions of the parser.",
+             note=TB + "; errors that the code ignores by design without creating a fault value (strconv.ParseFloat in coercions) do not set the latch.",
+             design="4 C11"),
+ 'C12': dict(text="Unbounded deductive proof, for every program text and byte offset, that Lexer.GetLineAndCol returns exactly line N of the text, its 1-based number and the byte column of the offset, that the three error constructors attach exactly that, that the lexer reports an illegal character at its own offset and that compound-assignment desugaring keeps the operator's position.",
+             note=TB + "; which token a runtime error is attached to ('inside the offending construct') is not decided (DESIGN.md 7).",
              design="4 C12"),
- 'C13': dict(text="Unbounded deductive proof of the lexical clauses on the real lexer: whitespace/comment skipping never crosses a newline, a newline is always a token, numerals are digits with an optional fraction and never absorb an operator, keywords are recognised only on the whole maximal identifier run, string tokens are exactly the bytes between identical quotes, operators by maximal munch (postconditions of Lexer.skipWhitespace/number/identifier/string/Regex/Next for every source text and position).",
-             note=TB + "; unicode.IsLetter/IsDigit on non-ASCII runes are uninterpreted; the relational clauses (two layouts of the same token sequence behave identically; ';' interchangeable with newline) are relations between two parser runs and are NOT decided (DESIGN.md 7) -- only the enabling lexer facts are proved.",
+ 'C13': dict(text="Unbounded deductive proof of the lexical clauses on the real lexer (whitespace/comments never cross a newline, newline is a token, numerals never absorb an operator, whole-word keywords, strings are the bytes between identical quotes, maximal munch) and of the parser's newline handling (advance drops newline tokens and records them; a bare return and a closing brace end their statement).",
+             note=TB + "; unicode.IsLetter/IsDigit on non-ASCII runes are uninterpreted; the relational clauses (two layouts of one token sequence behave identically) are 2-safety properties and are NOT decided (DESIGN.md 7).",
              design="4 C13"),
+ 'C15': dict(text="Unbounded deductive proof of the array methods against list semantics on the real closures: length, push (appends exactly one fresh cell, keeps the others), pop/popfirst (remove last/first, null when empty), contains (true iff some element == the argument, scanning in order), sort (fresh array of fresh copies via the stable library sort, receiver untouched), index resolution of GetMember/SetMember, and that the receiver a method runs on is the one bound when the method was looked up, whatever the arguments evaluate.",
+             note=TB + "; the ordering produced by slices.SortStableFunc is an assumed library contract; sequences of operations compose by lemma L15." + L,
+             design="4 C15"),
+ 'C16': dict(text="Unbounded deductive proof of the string/number/object methods and num(): byte length, key count, lower/upper (library image), floor/ceil/round as round-to-integral toward -inf/+inf/nearest-ties-away, pluck (fresh object; each requested key looked up among the receiver's own members only and stored in a fresh cell), num() on numeric/non-numeric strings, neutral results on wrong receivers.",
+             note=TB + "; split() and json() are not under a functional contract; strings.ToLower/ToUpper, strconv.ParseFloat are assumed library contracts.",
+             design="4 C16"),
+ 'C17': dict(text="Unbounded deductive proof of the rendering rules on prettyStringInteral: strings raw or quoted, numbers as FormatFloat 'f' -1, words for booleans and null, recurrence on the ancestor path is marked and children are rendered with exactly the extended path, object keys are visited in sorted order.",
+             note=TB + "; the concatenated shape of arrays/objects and JSON re-readability follow by structural induction (lemma L17); strconv.FormatFloat is an assumed library contract." + L,
+             design="4 C17"),
+ 'C18': dict(text="Unbounded deductive proof of printf step by step on the real nativePrintf: every byte/piece appended is justified by the directive under the cursor (%s/%f/%v with the argument of the right kind, padded per width sign and leading zero of THIS directive), unknown directives/dangling %/bad widths are errors, the single write happens only on success and writes exactly the builder.",
+             note=TB + "; that the steps compose to 'the format with each directive replaced' is lemma L18." + L,
+             design="4 C18"),
+ 'C19': dict(text="Unbounded deductive proof on the real code that match tries cases in source order and stops at the first match (no later pattern or body is evaluated), yields the expression body's value / null for a block body / null without match, and that evalCaseMatch reports failure only after every alternative was tried.",
+             note=TB + "; the pattern-matching relation itself (literal ==, identifier binds, arrays position-wise) is not stated as a postcondition." + L,
+             design="4 C19"),
+ 'C20': dict(text="Unbounded deductive proof of the three interpreter-level limits: pushFrame refuses exactly when depth+1 exceeds callDepthLimit (a constant between 1000 and 8192, every frame counted, stack unchanged on refusal), SetMember refuses a fill beyond index 2^20 before allocating and otherwise succeeds, printf refuses |width| > 65536 before padding.",
+             note=TB + "; that 4096 frames fit the Go stack, memory use below the limits and the JSON decoder's nesting limit are outside the logic (DESIGN.md 7).",
+             design="4 C20"),
 }
-na = {}
+na = {
+ 'C10': "not claimed yet: structural write-set / nondeterminism-source obligations not built (sorted-key obligations are part of C17/C07)",
+ 'C14': "cli.Run is not under contract (flag/os/isatty models not built); its equivalence clauses (-f vs inline, stdin vs file, -r vs BEGINFILE) are relations between two runs and not expressible as a contract (DESIGN.md 7)",
+}
 hook_commits = subprocess.run("git -C /repo log --format=%H --grep='^verif:'", shell=True, capture_output=True, text=True).stdout.split()
 m = {
  "version": 1,
